@@ -21,7 +21,8 @@ RULE = ("subgroup trees built from generated source text (`simple_parsing.subgro
         "all of them for small trees, sampled otherwise) x subsets of overridden leaves (none, all, sampled) x one foreign option "
         "(leaf or subgroup option of an unselected alternative; when it happens to be a proper prefix of a registered spelling the "
         "specification is silent: argparse's prefix matching is set aside) x unknown keys x missing required keys x repeated options (last wins) "
-        "x non-int values x `--o v` / `--o=v`; a stream of abbreviated spellings; and Union[A, B] sub-command fields (options before / "
+        "x non-int values x `--o v` / `--o=v`; a stream of sibling subgroup fields resolved in one round (frozen instance first, then "
+        "types / partials sharing leaf names with it or having a leaf it lacks, every key combination); a stream of abbreviated spellings; and Union[A, B] sub-command fields (options before / "
         "after the sub-command token, of the chosen / another member, default_factory or required). A fresh ArgumentParser per case. "
         "Non-trivial = at least one option written and the tree has a subgroup or sub-command field; distinct by full case.")
 TRUSTED = ["the registered option spellings (FieldWrapper.option_strings per destination) are read from the implementation and given to "
@@ -279,6 +280,53 @@ def abbrev_cases(rng, n):
     return out[:n] if n else out
 
 
+def sibling_cases(rng, tier):
+    """two or three SIBLING subgroup fields (resolved in the same round, at the top level and one level down); the earlier one
+    offers a frozen instance, the later ones types / partials of classes that share leaf names with the instance's class or
+    have a leaf it lacks: every key combination (incl. defaults) x no / all / one leaf overridden"""
+    A = {"name": "Adam", "leaves": [["lr", 1], ["beta", 2]], "subs": []}
+    B = {"name": "Cosine", "leaves": [["lr", 50], ["period", 10]], "subs": []}
+    C = {"name": "Step", "leaves": [["lr", 25], ["gamma", 3]], "subs": []}
+    E = {"name": "Plain", "leaves": [["wd", 7]], "subs": []}
+
+    def alt(kind, dc, ov=()):
+        return {"kind": kind, "dc": dc, "ov": [list(x) for x in ov]}
+
+    def level(name, extra_leaves, third):
+        subs = [
+            {"f": "optimizer", "default": "adam", "dkind": "key",
+             "alts": [["adam", alt("type", A)], ["fast", alt("inst", A, [("lr", 300), ("beta", 5)])]]},
+            {"f": "scheduler", "default": "cosine", "dkind": "key",
+             "alts": [["cosine", alt("type", B)], ["step", alt("type", C)], ["small", alt("partial", C, [("gamma", 1)])],
+                      ["frozen", alt("inst", B, [("lr", 77), ("period", 78)])]]},
+        ]
+        if third:
+            subs.append({"f": "reg", "default": "plain", "dkind": "key",
+                         "alts": [["plain", alt("type", E)], ["adamish", alt("partial", A, [("lr", 9)])]]})
+        return {"name": name, "leaves": [list(x) for x in extra_leaves], "subs": subs}
+
+    trees = [level("Cfg2", [("seed", 0)], False), level("Cfg3", [], True),
+             {"name": "Outer", "leaves": [["seed", 0]], "subs": [
+                 {"f": "model", "default": None, "dkind": "key",
+                  "alts": [["net", alt("type", level("Net", [("width", 4)], True))], ["flat", alt("type", E)]]}]}]
+    out = []
+    for tree in trees:
+        confs = configurations(tree, rng, 400)
+        if tier == "quick" and len(confs) > 40:
+            confs = rng.sample(confs, 40)
+        for conf in confs:
+            chosen = {d: k for d, k in conf if k is not None}
+            leaves, sgs, ok = selected(tree, chosen)
+            base = [_tok("choose", dest=d, key=k) for d, k in conf if k is not None]
+            variants = [base]
+            if ok and leaves:
+                variants.append(base + [_tok("set", dest=d, v=str(400 + i)) for i, d in enumerate(leaves)])
+                variants.append(base + [_tok("set", dest=rng.choice(leaves), v="444")])
+            for toks in variants:
+                out.append({"kind": "sg", "tree": tree, "toks": [dict(t, eq=False) for t in toks]})
+    return out
+
+
 def cmd_cases(rng, n):
     out = []
     pool = [["Alpha", [["lr", 1], ["x", 2]]], ["Beta", [["lr", 10], ["mom", 20]]], ["Gamma", [["wd", 5]]]]
@@ -334,6 +382,7 @@ def gen(tier, seed):
     rng = random.Random(f"C07-{seed}")
     cases = corpus()
     cases += abbrev_cases(rng, 0)
+    cases += sibling_cases(rng, tier)
     ntrees, per_tree = (40, 14) if tier == "quick" else (200, 24)
     maxdepth = 2 if tier == "quick" else 3
     for i in range(ntrees):
@@ -486,14 +535,18 @@ def _probe(cls, key, argv):
     from implutil import outcome_of
     k = (key, tuple(argv))
     if k not in _PROBES:
+        holder = {}
+
+        def setup():
+            holder["p"] = _fresh(cls)
+            holder["p"]._preprocessing(args=list(argv))
         with _Recorder() as rec:
-            p = _fresh(cls)
-            r = outcome_of(lambda: p._preprocessing(args=list(argv)))
+            r = outcome_of(setup)
         seen = {}
         for c in rec.calls:
             for d, o in c.items():
                 seen.setdefault(d, o)
-        _PROBES[k] = (r[0] == "ok", seen, _table_of(p) if r[0] == "ok" else None)
+        _PROBES[k] = (r[0] == "ok", seen, _table_of(holder["p"]) if r[0] == "ok" else None)
     return _PROBES[k]
 
 
@@ -556,7 +609,25 @@ def _value_of(obj):
     return {"c": type(obj).__name__, "l": leaves, "s": subs}
 
 
+def _early(kind, r):
+    """observation of a case whose class declarations / set-up probing already ended with an exception"""
+    base = {"obs": r[:2], "msg": (r[2][-160:] if len(r) > 2 and isinstance(r[2], str) else ""), "argv": [], "stage": "declaration"}
+    if kind == "sg":
+        base.update({"table": [], "setup_done": False, "stable": True, "toks": [], "skipped": 0, "rounds": 0})
+    else:
+        base.update({"ptab": [], "stabs": [], "before": [], "after": []})
+    return base
+
+
 def _run_sg(case):
+    from implutil import outcome_of
+    r = outcome_of(lambda: _run_sg_inner(case))
+    if r[0] == "ok":
+        return r[1]
+    return _early("sg", r)      # class / subgroups() construction or the probing of the spellings raised
+
+
+def _run_sg_inner(case):
     from implutil import outcome_of, reset_simple_parsing_state
     tree = case["tree"]
     src = source(tree)
@@ -589,21 +660,22 @@ def _run_sg(case):
     for t in toks:
         argv += [f"{t['o']}={t['v']}"] if t["eq"] else [t["o"], t["v"]]
     reset_simple_parsing_state()
+    holder = {}
     with _Recorder() as rec:
-        p = _fresh(cls)
-
         def go():
+            holder["p"] = p = _fresh(cls)
             ns = p.parse_args(list(argv))
             return {"v": _value_of(getattr(ns, ROOT)), "sub": sorted([k, v] for k, v in getattr(ns, "subgroups", {}).items()),
                     "extra": sorted(k for k in vars(ns) if k not in (ROOT, "subgroups"))}
         r = outcome_of(go)
+    p = holder.get("p")
     seen, stable = {}, True
     for c in rec.calls:
         for d, o in c.items():
             if d in seen and seen[d] != o:
                 stable = False
             seen.setdefault(d, o)
-    done = bool(p._preprocessing_done)
+    done = bool(p is not None and p._preprocessing_done)
     if done:
         final = _table_of(p)
         for d, o in seen.items():
@@ -623,6 +695,14 @@ def _run_sg(case):
 
 
 def _run_cmd(case):
+    from implutil import outcome_of
+    r = outcome_of(lambda: _run_cmd_inner(case))
+    if r[0] == "ok":
+        return r[1]
+    return _early("cmd", r)
+
+
+def _run_cmd_inner(case):
     import argparse
     from implutil import outcome_of, reset_simple_parsing_state
     src = cmd_source(case)
@@ -650,9 +730,8 @@ def _run_cmd(case):
     after = [tok(t) for t in case["after"]]
     argv = [x for o, v in before for x in (o, v)] + ([case["name"]] if case["name"] is not None else []) + [x for o, v in after for x in (o, v)]
     reset_simple_parsing_state()
-    p2 = _fresh(cls)
-
     def go():
+        p2 = _fresh(cls)
         ns = p2.parse_args(list(argv))
         return {"v": _value_of(getattr(ns, ROOT)), "extra": sorted(k for k in vars(ns) if k != ROOT)}
     r = outcome_of(go)
@@ -790,6 +869,8 @@ def _silent(case, obs):
 
 
 def py_spec(case, obs):
+    if obs.get("stage") == "declaration":
+        return f"declaring the classes / setting up a parser for them ended with {obs['obs']} {obs['msg'][:120]}"
     if _silent(case, obs):
         return None
     e = _expect(case, obs)
@@ -965,7 +1046,28 @@ def to_coq(case, obs):
 
 
 # --------------------------------------------------------------------------------------------------
+def _uniq(tree):
+    """same class name <=> same structure (two differently pruned copies of one class must not share a name)"""
+    seen, count = {}, {}
+
+    def walk(dc):
+        subs = [dict(sg, alts=[[k, dict(a, dc=walk(a["dc"]))] for k, a in sg["alts"]]) for sg in dc["subs"]]
+        base = dc["name"].rstrip("pq").split("_")[0]
+        key = json.dumps([base, dc["leaves"], subs], sort_keys=True)
+        if key not in seen:
+            n = count.get(base, 0)
+            count[base] = n + 1
+            seen[key] = base if n == 0 else f"{base}_{n}"
+        return dict(dc, name=seen[key], subs=subs)
+    return walk(tree)
+
+
 def shrink(case):
+    for c in _shrink(case):
+        yield dict(c, tree=_uniq(c["tree"])) if c["kind"] == "sg" else c
+
+
+def _shrink(case):
     if case["kind"] == "cmd":
         for part in ("before", "after"):
             for i in range(len(case[part])):
